@@ -56,14 +56,29 @@ def build_dataset(ck, name, seed, depth, deep):
     return man
 
 
+def build_repo_dataset(ck):
+    """The repository's own test data (deep BAMs) with physically merged BAMs (query names prefixed per source)."""
+    S = datasets.repo_simple(env.REPO)
+    root = os.path.join(ck.wd, "data", "simple")
+    shutil.rmtree(root, ignore_errors=True)
+    os.makedirs(root)
+    bams = S["bams"]["deep"]
+    man = {"name": "simple", "ref": S["ref"], "snv_vcf": S["snv_vcf"], "bed_run": S["bed"], "hap_vcf": S["hap_vcfs"]["mock"],
+           "samples": [{"name": n, "bam": b} for n, b in zip(S["samples"], bams)],
+           "merged": {"M13": datasets.merge_repo_bams(os.path.join(root, "M13.bam"), [bams[0], bams[2]], "M13"),
+                      "M123": datasets.merge_repo_bams(os.path.join(root, "M123.bam"), bams, "M123")}}
+    return man
+
+
 def materialise(man, units, tag, rnd_dir):
-    """Configuration -> (argv fragment, expected column names, ploidy map)."""
-    bam_of = {"S%d" % i: man["samples"][i - 1]["bam"] for i in (1, 2, 3)}
+    """Configuration -> (argv fragment, expected column names, ploidy map, inbreeding file)."""
+    sname = {i: man["samples"][i - 1]["name"] for i in (1, 2, 3)}
+    bam_of = {sname[i]: man["samples"][i - 1]["bam"] for i in (1, 2, 3)}
     bam_of.update(man["merged"])
     true_pool = any((not u["merged"]) and len(u["m"]) > 1 for u in units)
     bams, names, pool_lines, ploidy = [], [], [], {}
     for u in units:
-        members = ["M" + "".join(map(str, u["m"]))] if u["merged"] else ["S%d" % i for i in u["m"]]
+        members = ["M" + "".join(map(str, u["m"]))] if u["merged"] else [sname[i] for i in u["m"]]
         for s in members:
             if bam_of[s] not in bams:
                 bams.append(bam_of[s])
@@ -176,6 +191,7 @@ def main():
     dsets = [build_dataset(ck, "F1", ck.seed * 31 + 1, depth=10, deep=1)]
     if tier == "thorough":
         dsets.append(build_dataset(ck, "F2", ck.seed * 31 + 2, depth=6, deep=None))
+    repo_man = build_repo_dataset(ck)
     groups = GROUPS_QUICK if tier == "quick" else GROUPS_THOROUGH
     cfgdir = os.path.join(ck.wd, "cfg")
     shutil.rmtree(cfgdir, ignore_errors=True)
@@ -195,6 +211,21 @@ def main():
                 runs.append({"prog": prog, "group": man["name"] + "/" + gname, "units": units, "key": key,
                              "argv": argv + [inbfile if x == "@INBREEDING" else x for x in extra],
                              "expected": names})
+    # the repository's own data (happy path): the first three groups
+    for prog, extra, gname in GROUPS_QUICK[:3]:
+        for key in sorted(configs):
+            units = configs[key]
+            if tier == "quick" and len(units) > 1 and not any(len(u["m"]) > 1 for u in units):
+                continue    # quick: singles, and every configuration with a pool / merged sample
+            argv, names, ploidy, inbfile = materialise(repo_man, units, "simple-%s" % "_".join(key), cfgdir)
+            if prog != "call-exact":
+                argv += ["--mcmc-steps", "300", "--mcmc-burn", "100", "--mcmc-seed", "11"]
+            if prog == "assemble":
+                argv += ["--targets", repo_man["bed_run"], "--variants", repo_man["snv_vcf"], "--reference", repo_man["ref"]]
+            else:
+                argv += ["--haplotypes", repo_man["hap_vcf"]]
+            runs.append({"prog": prog, "group": "simple/" + gname, "units": units, "key": key,
+                         "argv": argv + [inbfile if x == "@INBREEDING" else x for x in extra], "expected": names})
     ck.note("program_runs", len(runs))
     per = 8
     order = list(range(len(runs)))
@@ -263,13 +294,17 @@ def main():
         ck.traces += len(logged)
         keys = [x["_key"] for x in logged]
         kset = set(keys)
-        covered_pairs |= {(a, b) for (a, b) in model_pairs if a in kset and b in kset}
+        if not gname.startswith("simple/") or tier == "thorough":
+            covered_pairs |= {(a, b) for (a, b) in model_pairs if a in kset and b in kset}
         grouped = {}
         for p in t.printed:
             if "reject" in p:
                 a, b = logged[p["reject"][0] - 1], logged[p["reject"][1] - 1]
-                rel = "pool-vs-merged" if any(u["merged"] for u in a["units"]) != any(u["merged"] for u in b["units"]) else (
-                    "same-units" if sorted(a["_key"]) == sorted(b["_key"]) else "subset")
+                ca = sorted(tuple(u["m"]) for u in a["units"])
+                cb = sorted(tuple(u["m"]) for u in b["units"])
+                rel = ("same-units" if ca == cb else "subset") + (
+                    "+pool-vs-merged" if {unit_key(u) for u in a["units"]} - {unit_key(u) for u in b["units"]} and
+                    any(u["merged"] for u in a["units"] + b["units"]) else "")
                 for c in p["clause"]:
                     grouped.setdefault((c, rel), []).append((a, b))
         for (c, rel), lst in grouped.items():
